@@ -71,6 +71,8 @@ pub struct Profile {
     pub fair: bool,
     pub allow_zero: bool,
     pub sib_wakes: bool,
+    /// probability of polling the combinator again after its final result
+    pub p_post: u32,
 }
 
 pub const ALL_FAMILIES: &[(Family, u32)] = &[
@@ -106,6 +108,7 @@ impl Profile {
             fair: false,
             allow_zero: true,
             sib_wakes: true,
+            p_post: 0,
         }
     }
     pub fn only(mut self, fams: &[Family]) -> Profile {
@@ -329,11 +332,13 @@ pub fn gen_case(bytes: &[u8], p: &Profile) -> Case {
     let schedule = gen_schedule(&mut c, p);
     let no_drain = c.coin(p.p_nodrain);
     let drain: Vec<u8> = (0..24).map(|_| c.byte()).collect();
+    let post_polls = if c.coin(p.p_post) { 1 + c.choice(2) as u8 } else { 0 };
     Case {
         root,
         schedule,
         drain,
         no_drain,
         fair_polls,
+        post_polls,
     }
 }
